@@ -219,11 +219,11 @@ func runC17(c C17Case) (res c17result) {
 		go func() {
 			defer wg.Done()
 			last := map[[3]int]int{}
+			var mu sync.Mutex // one lock for all connections: the reader of a closed connection may still be at work when the next one starts
 			connect := func(gen int) (*fix.Conn, string) {
 				cn := b.Dial(fmt.Sprintf("D%d", gen))
 				first := true
 				var bad string
-				var mu sync.Mutex
 				cn.OnPacket = func(p *codec.Packet, off int64) bool {
 					mu.Lock()
 					defer mu.Unlock()
